@@ -63,3 +63,39 @@ Proof.
   split; [discriminate | intros _; split; right; reflexivity].
 Qed.
 Print Assumptions C01_contribution_rule.
+
+(* the sweep's wind-count arithmetic, as TRANSLATED FROM /repo's CURRENT SOURCE on every run
+   (Gen/Windcount_gen.v: the wind-count statement of setWindCountForClosedPathEdge and the wind-count
+   update of intersectEdges), maintains the encoding the contribution rule relies on
+   (Model/WindcountProofs.v: left_of / right_of decode the two sides of an edge from its windCount) *)
+From Clip Require Import Gen.Windcount_gen Model.WindcountProofs.
+Theorem C01_windcount_new_edge :
+  forall fr w2 dx2 dx, wc_ok w2 dx2 -> unit dx ->
+    let r := gen_windcount_step fr w2 dx2 dx false in
+    r <> 0%Z /\ left_of r dx = right_of w2 dx2.
+Proof. exact windcount_step_correct. Qed.
+Theorem C01_windcount_crossing_same_set :
+  forall fr w1 c1 dx1 w2 c2 dx2,
+    fr <> EvenOdd -> wc_ok w1 dx1 -> wc_ok w2 dx2 ->
+    right_of w1 dx1 = left_of w2 dx2 ->
+    let '(w1', w2', c1', c2') := gen_intersect_windcounts fr w1 c1 dx1 w2 c2 dx2 true in
+    w1' <> 0%Z /\ w2' <> 0%Z /\ c1' = c1 /\ c2' = c2 /\
+    left_of w2' dx2 = left_of w1 dx1 /\
+    right_of w2' dx2 = left_of w1' dx1 /\
+    right_of w1' dx1 = right_of w2 dx2.
+Proof. exact intersect_same_type_correct. Qed.
+Theorem C01_windcount_crossing_other_set :
+  forall fr w1 c1 dx1 w2 c2 dx2,
+    gen_intersect_windcounts fr w1 c1 dx1 w2 c2 dx2 false =
+    match fr with
+    | EvenOdd => (w1, w2, if (c1 =? 0)%Z then 1%Z else 0%Z, if (c2 =? 0)%Z then 1%Z else 0%Z)
+    | _ => (w1, w2, (c1 + dx2)%Z, (c2 - dx1)%Z)
+    end.
+Proof. exact intersect_other_type_correct. Qed.
+(* the stored count is the side farther from zero; the other side is windCount - sgn windCount, which is
+   what C01_contribution_rule (boundary_of_expected) uses *)
+Theorem C01_windcount_decoding :
+  forall w dx, wc_ok w dx ->
+    (left_of w dx = w /\ right_of w dx = (w - Z.sgn w)%Z) \/ (right_of w dx = w /\ left_of w dx = (w - Z.sgn w)%Z).
+Proof. exact decode_far. Qed.
+Print Assumptions C01_windcount_crossing_same_set.
